@@ -297,7 +297,7 @@ def build_raw(o, m, square=False):
     if o["modes"] == "explicit":
         dom["modes"] = [6, 4]
     if o["halo"] == "value":
-        dom["halo"] = 40.0
+        dom["halo"] = 40.0 if (o["ntowers"] + o["tower"]) % 2 else 0.0       # an explicit zero-width halo is a value too
     if o["levels"] == "list":
         dom["output_levels"] = [3, 1, 4]
     elif o["levels"] == "full":
@@ -374,7 +374,7 @@ def explicit_pipeline(cfg, raw, o, m, i, tower, supplied, tower_index=None):
         q, z, prof, (dom["xmax"], dom["ymax"]), levels,
         modes=(6, 4) if o["modes"] == "explicit" else (512, 512),
         meas_pt=(x, y), footprint=bool(o["fp"]), analytic=bool(o["an"]),
-        halo=40.0 if o["halo"] == "value" else None, precision=o["prec"],
+        halo=dom.get("halo"), precision=o["prec"],
     )
     ts = kw["timestamps"][i] if kw["timestamps"] is not None else i
     return {"grid": grid, "conc": conc, "flx": flx, "tower_name": t["name"], "tower_xy": (x, y), "timestamp": ts}
@@ -417,7 +417,7 @@ def _call_record_mismatch(o, m, i, want, rec, cfg, tower, supplied):
     exp = {
         "srf_flx": src_out, "z": z_out, "profiles": p_out, "domain": (cfg.domain.xmax, cfg.domain.ymax), "levels": lv,
         "modes": (6, 4) if o["modes"] == "explicit" else (512, 512), "meas_pt": (tower.x, tower.y),
-        "footprint": bool(o["fp"]), "analytic": bool(o["an"]), "halo": 40.0 if o["halo"] == "value" else None,
+        "footprint": bool(o["fp"]), "analytic": bool(o["an"]), "halo": cfg.domain.halo,
         "precision": o["prec"], "cache": None,
     }
     if a or set(k) != set(exp):
